@@ -186,6 +186,7 @@ func (fx *fctx) evalMulti(st *State, x ast.Expr, n int) []*Value {
 			zero := e.zeroValue(t)
 			val := e.mergeValues([]*Term{okT, ts.Not(okT)}, []*Value{got, zero})
 			val.T = t
+			e.assumeType(st, val) // type-level facts hold for the unboxed value and for the zero value alike
 			return []*Value{val, {T: types.Typ[types.Bool], Tm: okT}}
 		}
 	case *ast.IndexExpr:
@@ -358,7 +359,7 @@ func (fx *fctx) execReturn(st *State, s *ast.ReturnStmt) *State {
 	for i := len(fr.defers) - 1; i >= 0; i-- {
 		fx.runDeferred(st, fr.defers[i])
 	}
-	fr.rets = append(fr.rets, &retState{st: st, vals: vals, pos: s.Pos()})
+	fr.rets = append(fr.rets, &retState{st: st, vals: vals, pos: s.Pos(), inPeel: fx.inPeel > 0})
 	d := st.clone()
 	d.dead = true
 	return d
@@ -601,7 +602,9 @@ func (fx *fctx) execPeeled(st *State, s ast.Stmt, cond func(*State) *Term, body 
 	fx.pendingLabel = ""
 	fx.jumps = append(fx.jumps, jf)
 	fx.runHooks(bodySt, "loopbegin", ord, "", s, nil)
+	fx.inPeel++
 	end := body(bodySt)
+	fx.inPeel--
 	fx.jumps = fx.jumps[:len(fx.jumps)-1]
 	for _, back := range append([]*State{end}, jf.conts...) {
 		if back == nil || back.dead {
